@@ -142,7 +142,14 @@ def run_faces(ev, e):
                 want.append(cmath.rect(1, n * math.atan2(float(np.dot(d, Y)), float(np.dot(d, X)))))
         if any(abs(w - want[0]) > 1e-9 for w in want):
             e["compat"] = 0
-    ff.run()
+    if ev.get("pre_ns") is not None:
+        # history: the same solver object first ran with another number of smoothing steps; then the option is changed and optimize() is called again
+        ff.n_smooth = ev["pre_ns"]
+        ff.run()
+        ff.n_smooth = ns
+        ff.optimize()
+    else:
+        ff.run()
     e["fixed"] = sorted(i for i in range(nf) if m.faces.has_attribute("fixed") and bool(m.faces.get_attribute("fixed")[i]))
     e["hasfixed"] = int(m.faces.has_attribute("fixed"))
     z = np.array(ff.var, dtype=complex).copy()
@@ -237,7 +244,7 @@ FIELDS = {
     "singularities": ["fe", "base", "sing", "sumint", "sumtol", "rot", "fk", "field"], "invariance": ["fe", "inv", "compat"],
     "vsetup": ["fe", "fv", "zi"], "vlaplacian": ["fe", "herm", "Ldiag", "Labs2", "Lflat", "flatim"], "vfield": ["fe", "z", "kept", "harm"], "vinvariance": ["fe", "inv", "compat"],
 }
-COMMON = ["n", "cotan", "ns", "feats", "variant", "perm", "elem", "exc", "mesh", "run", "smooth_normals"]
+COMMON = ["n", "cotan", "ns", "feats", "variant", "perm", "elem", "exc", "mesh", "run", "smooth_normals", "pre_ns"]
 
 
 def exec_case(case):
@@ -408,6 +415,8 @@ def run(ctx):
                         mesh, perm = variant(P, F, rng, rotate=True, permute=(k != 1))
                     evs.append({"op": op, "n": n, "cotan": cot, "ns": ns, "feats": feats, "mesh": mesh, "variant": k, "perm": perm,
                                 "smooth_normals": 1})
+                    if op == "run" and k == 0 and ns == 0 and n in (2, 4) and kind != "closed":
+                        evs.append(dict(evs[-1], variant=90, pre_ns=3))      # the same run reached through a first run with smoothing on the same object
                 cases.append({"id": "%s-%s-n%d-c%d-s%d-f%d" % (name, op, n, cot, ns, feats), "given": {"family": name}, "events": evs})
     tP, tF = torus(6, 5)
     for n in (4, 2, 3) if thorough else (4,):
